@@ -791,6 +791,36 @@ theorem tx_borrow_checked {w w' : WState} {tx : List TOp} (h : w.runTx tx = some
     · cases hst
   · cases hst
 
+/-- a classic liquidation inside a committed transaction ran on a reached state; a liquidator inside a flash loan has its own
+    end_flashloan further down the same transaction -/
+theorem tx_liquidate_at {w w' : WState} {tx : List TOp} (h : w.runTx tx = some w')
+    (h0 : ∀ (k : Nat) (a : AcctV), w.accts[k]? = some a → inFlash a = false)
+    {i qi ei abi lbi signer : Nat} {amount : Int} (hi : tx[i]? = some (.ix (.liquidate qi ei abi lbi signer amount))) :
+    ∃ (wi : WState) (lq le : AcctV) (ab lb : WBank) (o : LiqOutW), wi.accts[qi]? = some lq ∧ wi.accts[ei]? = some le ∧
+      wi.banks[abi]? = some ab ∧ wi.banks[lbi]? = some lb ∧ liquidate (wi.liqCtx lq le ab lb signer) amount = .ok o ∧
+      (inFlash lq = true → ∃ (j s : Nat) (wj : WState) (a : AcctV) (f : Nat), i < j ∧ tx[j]? = some (.endFlash qi s) ∧
+        wj.accts[qi]? = some a ∧ endFlashloan (wj.actx a s) 1 = .ok f) := by
+  have hp0 : Pending tx 0 w := by
+    intro k a hk hf
+    rw [h0 k a hk] at hf; cases hf
+  obtain ⟨wi, wi', hpi, hst⟩ := runFrom_at tx tx 0 w w' rfl h hp0 i _ (Nat.zero_le _) hi
+  simp only [WState.stepIn, WState.step?] at hst
+  split at hst
+  · cases hst
+  · split at hst
+    · rename_i lq le ab lb hq he hab hlb
+      split at hst
+      · rename_i o ho
+        refine ⟨wi, lq, le, ab, lb, o, hq, he, hab, hlb, ho, ?_⟩
+        intro hfa
+        obtain ⟨j, s, hij, hj⟩ := hpi qi lq hq hfa
+        have hne : j ≠ i := by
+          intro e; subst e; rw [hi] at hj; cases hj
+        obtain ⟨wj, a', f, ha', hf⟩ := runFrom_ends tx tx 0 w w' rfl h j qi s (Nat.zero_le _) hj
+        exact ⟨j, s, wj, a', f, by omega, hj, ha', hf⟩
+      · cases hst
+    · cases hst
+
 /-- the same for a withdrawal outside receivership -/
 theorem tx_withdraw_checked {w w' : WState} {tx : List TOp} (h : w.runTx tx = some w')
     (h0 : ∀ (k : Nat) (a : AcctV), w.accts[k]? = some a → inFlash a = false)
